@@ -115,9 +115,11 @@ enum ROp {
     RelatedText,
     Parallel,
     QueryResultJson,
+    /// ToJson::to_json_file on a resource (takes &self): writes a scratch file, returns what it wrote
+    ResourceToJsonFile,
 }
 
-const ALL_OPS: [ROp; 8] = [ROp::StoreJson, ROp::ResourceToJson, ROp::DatasetToJson, ROp::ResourceInherentJson, ROp::Query, ROp::RelatedText, ROp::Parallel, ROp::QueryResultJson];
+const ALL_OPS: [ROp; 9] = [ROp::StoreJson, ROp::ResourceToJson, ROp::DatasetToJson, ROp::ResourceInherentJson, ROp::Query, ROp::RelatedText, ROp::Parallel, ROp::QueryResultJson, ROp::ResourceToJsonFile];
 
 fn run_op(store: &AnnotationStore, op: ROp) -> String {
     match op {
@@ -152,6 +154,19 @@ fn run_op(store: &AnnotationStore, op: ROp) -> String {
             let mut texts: Vec<String> = store.annotations().textselections().map(|t| t.text().to_string()).collect::<Vec<_>>().into_par_iter().collect();
             texts.sort();
             format!("{:?}{:?}", ids, texts)
+        }
+        ROp::ResourceToJsonFile => {
+            let r = store.resources().next().expect("resource");
+            // a scratch file per thread, outside the directory of the stand-off files
+            static N: AtomicU64 = AtomicU64::new(0);
+            let path = std::env::temp_dir().join(format!("c20-scratch-{}-{}.json", std::process::id(), N.fetch_add(1, Ordering::Relaxed)));
+            let p = path.to_string_lossy().to_string();
+            let out = match ToJson::to_json_file(r.as_ref(), &p, store.config()) {
+                Ok(()) => std::fs::read_to_string(&path).unwrap_or_else(|e| format!("ERR read {}", e)),
+                Err(e) => format!("ERR {}", e),
+            };
+            let _ = std::fs::remove_file(&path);
+            out
         }
         ROp::QueryResultJson => {
             let q: Query = "SELECT RESOURCE ?r".try_into().expect("query");
@@ -335,7 +350,7 @@ fn judge(rep: &mut Report, storekind: &str, ops: &[ROp], base: &[String], got: &
             };
             // recorded root cause: ToJson::to_json_string / to_json_file on a resource or dataset switch the serialisation
             // mode cell that every clone of the store's Config shares, for the duration of their own serialisation
-            let toggler = ops.iter().enumerate().any(|(j, o)| j != i && matches!(o, ROp::ResourceToJson | ROp::DatasetToJson));
+            let toggler = ops.iter().enumerate().any(|(j, o)| j != i && matches!(o, ROp::ResourceToJson | ROp::DatasetToJson | ROp::ResourceToJsonFile));
             let sig = if toggler && what.contains("when-alone") || (toggler && what == "differs" && matches!(ops[i], ROp::StoreJson | ROp::QueryResultJson)) {
                 "C20/explained:resource-or-dataset-serialisation-toggles-the-mode-cell-shared-by-all-config-clones".to_string()
             } else {
@@ -352,7 +367,7 @@ fn judge(rep: &mut Report, storekind: &str, ops: &[ROp], base: &[String], got: &
 }
 
 pub fn run(p: &Params, rep: &mut Report) {
-    rep.rule = "stores with inline members and with stand-off (@include) resources and datasets (written to the work directory and reloaded; unchanged, and changed by one more annotation); reader operations: store.to_json_string, ToJson::to_json_string on a resource and on a dataset, TextResource::to_json_string, a SELECT query, QueryResultItem::to_json_string, related_text, the .parallel() adaptors. (i) controlled schedules: each reader parks at every yield point (serialisation-mode reads and writes, changed-flag reads and writes); for every pair of operations interleavings are enumerated depth-first up to a budget and then sampled with a seeded generator; triples are sampled; (ii) stress: 4-12 free-running threads with the hook injecting yield_now and microsecond sleeps. Every result is compared with the result of the same call running alone before and after, and the hooked dump must be unchanged. distinct_nontrivial = distinct (store kind, operation tuple, interleaving trace) executed".into();
+    rep.rule = "stores with inline members and with stand-off (@include) resources and datasets (written to the work directory and reloaded; unchanged, and changed by one more annotation); reader operations: store.to_json_string, ToJson::to_json_string on a resource and on a dataset, ToJson::to_json_file on a resource (scratch file), TextResource::to_json_string, a SELECT query, QueryResultItem::to_json_string, related_text, the .parallel() adaptors. (i) controlled schedules: each reader parks at every yield point (serialisation-mode reads and writes, changed-flag reads and writes); for every pair of operations interleavings are enumerated depth-first up to a budget and then sampled with a seeded generator; triples are sampled; (ii) stress: 4-12 free-running threads with the hook injecting yield_now and microsecond sleeps. Every result is compared with the result of the same call running alone before and after, and the hooked dump must be unchanged. distinct_nontrivial = distinct (store kind, operation tuple, interleaving trace) executed".into();
     rep.assumptions = vec!["yield points sit before every read or write of Config.serialize_mode and the changed flags (feature verif); other code between them is treated as atomic by the controlled schedules and exercised by the stress runs".into()];
     if let Some(v) = p.variant.as_deref() {
         if v == "miri" || v == "tsan" {
@@ -524,7 +539,7 @@ fn sanitizer_workload(p: &Params, rep: &mut Report, tiny: bool) {
                 rep.distinct(&format!("{}/{:?}/{:?}", kind, a, b));
                 for (w, r) in results {
                     if !matches!(&r, Ok(s) if *s == base[w]) {
-                        let toggler = matches!(a, ROp::ResourceToJson | ROp::DatasetToJson) || matches!(b, ROp::ResourceToJson | ROp::DatasetToJson);
+                        let toggler = matches!(a, ROp::ResourceToJson | ROp::DatasetToJson | ROp::ResourceToJsonFile) || matches!(b, ROp::ResourceToJson | ROp::DatasetToJson | ROp::ResourceToJsonFile);
                         if toggler {
                             rep.violation("C20/explained:resource-or-dataset-serialisation-toggles-the-mode-cell-shared-by-all-config-clones".to_string(), json!({"store": kind, "ops": [opname(*a), opname(*b)], "sanitizer_build": true}));
                         } else {
